@@ -84,6 +84,8 @@ structure NodeRes where
   duals : List Rat
   obj : Option Rat
   iters : Nat
+  stalls : Nat  -- coverage only: longest run of LP solves whose value did not move after a new column
+  stallVal : Option Rat  -- coverage only: the LP value of the first run of ≥ 2 such solves
   deriving Inhabited
 
 abbrev Solver := List Pat → List Bnd → NodeRes
@@ -94,30 +96,50 @@ structure Pricer where
   price : List Rat → Option Pat × Rat
   stop : Rat → Bool
 
-/-- The pricing loop of `_solve_node_lp`: `(pool, columns added, LP infeasible)`. -/
+/-- Coverage bookkeeping of the pricing loop (not part of the code): consecutive master-LP values
+that stayed put (within `1e-9`) although a column had just been added ("tailing off"). -/
+structure Stall where
+  prev : Option Rat := none
+  run : Nat := 0
+  maxRun : Nat := 0
+  stallVal : Option Rat := none
+  deriving Inhabited
+
+def Stall.step (s : Stall) (v : Rat) : Stall :=
+  match s.prev with
+  | none => { s with prev := some v }
+  | some u =>
+    if absQ (v - u) ≤ 1 / 1000000000 then
+      { prev := some v, run := s.run + 1, maxRun := max s.maxRun (s.run + 1),
+        stallVal := if s.run + 1 ≥ 2 && s.stallVal.isNone then some v else s.stallVal }
+    else { s with prev := some v, run := 0 }
+
+/-- The pricing loop of `_solve_node_lp`: `(pool, columns added, LP infeasible, coverage)`. -/
 def nodeLoop (pr : Pricer) (d : List Nat) (bounds : List Bnd) (eps : Rat) :
-    Nat → Nat → List Pat → List Pat × Nat × Bool
-  | 0, it, cols => (cols, it, false)
-  | fuel + 1, it, cols =>
+    Nat → Nat → List Pat → Stall → List Pat × Nat × Bool × Stall
+  | 0, it, cols, sl => (cols, it, false, sl)
+  | fuel + 1, it, cols, sl =>
     let lp := boundedMasterLP cols d bounds eps
     match lp.2.2 with
-    | none => (cols, it, true)  -- returned at once with the infeasible LP
-    | some _ =>
+    | none => (cols, it, true, sl)  -- returned at once with the infeasible LP
+    | some v =>
+      let sl := sl.step v
       let p := pr.price lp.2.1
       match p.1 with
-      | none => (cols, it, false)
+      | none => (cols, it, false, sl)
       | some c =>
-        if pr.stop p.2 then (cols, it, false)
-        else if cols.contains c then (cols, it, false)
-        else nodeLoop pr d bounds eps fuel (it + 1) (cols ++ [c])
+        if pr.stop p.2 then (cols, it, false, sl)
+        else if cols.contains c then (cols, it, false, sl)
+        else nodeLoop pr d bounds eps fuel (it + 1) (cols ++ [c]) sl
 
 /-- `_solve_node_lp`. -/
 def nodeLP (pr : Pricer) (d : List Nat) (eps : Rat) (maxIter : Nat) : Solver := fun cols bounds =>
-  let r := nodeLoop pr d bounds eps maxIter 0 cols
-  if r.2.2 then ⟨r.1, List.replicate r.1.length 0, List.replicate d.length 0, none, r.2.1⟩
+  let r := nodeLoop pr d bounds eps maxIter 0 cols {}
+  if r.2.2.1 then
+    ⟨r.1, List.replicate r.1.length 0, List.replicate d.length 0, none, r.2.1, r.2.2.2.maxRun, r.2.2.2.stallVal⟩
   else
     let lp := boundedMasterLP r.1 d bounds eps
-    ⟨r.1, lp.1, lp.2.1, lp.2.2, r.2.1⟩
+    ⟨r.1, lp.1, lp.2.1, lp.2.2, r.2.1, r.2.2.2.maxRun, r.2.2.2.stallVal⟩
 
 /-- Python's `round` (half to even). -/
 def roundHalfEven (q : Rat) : Int :=
@@ -181,6 +203,9 @@ structure BpOut where
   rootDuals : List Rat
   rootObj : Option Rat
   fragile : Bool
+  rootStalls : Nat  -- coverage: longest run of stalled LP values in the root's column generation
+  rootStallVal : Option Rat  -- coverage: LP value of the first run of ≥ 2 stalls at the root
+  nodeStalls : Nat  -- coverage: the same maximum over the tree nodes
   deriving Inhabited
 
 structure BpSt where
@@ -190,6 +215,7 @@ structure BpSt where
   best : Option Plan
   nodes : Nat
   fragile : Bool  -- a float-fragile tie was met (`fracTie` / `popTie`); bookkeeping only
+  nodeStalls : Nat := 0  -- coverage bookkeeping only
 
 /-- `heappop`: the entry with the least `(bound, counter)`. -/
 def popMin (tree : List (Rat × Nat × List Bnd)) : Option ((Rat × Nat × List Bnd) × List (Rat × Nat × List Bnd)) :=
@@ -223,7 +249,7 @@ def bpLoop (solve : Solver) (eps gapTol : Rat) (lb : Int) (maxNodes : Nat) (stop
       let st := { st with tree := rest, fragile := st.fragile || popTie (bound, cnt, bounds) rest }
       if geBest bound st.best eps then bpLoop solve eps gapTol lb maxNodes stop fuel st else
       let r := solve st.cols bounds
-      let st := { st with cols := r.cols, nodes := st.nodes + 1 }
+      let st := { st with cols := r.cols, nodes := st.nodes + 1, nodeStalls := max st.nodeStalls r.stalls }
       if stop st.nodes then (st, none) else  -- `report_progress(...)` asked to stop: `break`
       match r.obj with
       | none => bpLoop solve eps gapTol lb maxNodes stop fuel st
@@ -252,25 +278,28 @@ def bpRun (solve : Solver) (cols0 : List Pat) (d : List Nat) (eps gapTol : Rat) 
     (stop : Nat → Bool := fun _ => false) : BpOut :=
   let root := solve cols0 []
   match root.obj with
-  | none => ⟨"INFEASIBLE", none, 0, 0, false, 0, false, root.duals, none, false⟩
+  | none => ⟨"INFEASIBLE", none, 0, 0, false, 0, false, root.duals, none, false, root.stalls, root.stallVal, 0⟩
   | some obj =>
     let conv := decide (root.iters < maxIter)
     let lb : Int := if conv then (obj - eps).ceil else 0
     match mostFractional root.xs eps with
     | none =>
       let plan := buildSolution root.xs root.cols eps
-      ⟨if conv then "OPTIMAL" else "FEASIBLE", some plan, rolls plan, 0, conv, lb, true, root.duals, some obj, false⟩
+      ⟨if conv then "OPTIMAL" else "FEASIBLE", some plan, rolls plan, 0, conv, lb, true, root.duals, some obj, false,
+        root.stalls, root.stallVal, 0⟩
     | some _ =>
-      let st0 : BpSt := ⟨root.cols, [(obj, 0, [])], 1, roundSolution root.xs root.cols d eps, 0, false⟩
+      let st0 : BpSt := ⟨root.cols, [(obj, 0, [])], 1, roundSolution root.xs root.cols d eps, 0, false, 0⟩
       let (st, early) := bpLoop solve eps gapTol lb maxNodes stop (2 * maxNodes + 2) st0
       match early with
-      | some s => ⟨s, st.best, (st.best.map rolls).getD 0, st.nodes, conv, lb, false, root.duals, some obj, st.fragile⟩
+      | some s => ⟨s, st.best, (st.best.map rolls).getD 0, st.nodes, conv, lb, false, root.duals, some obj, st.fragile,
+          root.stalls, root.stallVal, st.nodeStalls⟩
       | none =>
         match st.best with
-        | none => ⟨"INFEASIBLE", none, 0, st.nodes, conv, lb, false, root.duals, some obj, st.fragile⟩
+        | none => ⟨"INFEASIBLE", none, 0, st.nodes, conv, lb, false, root.duals, some obj, st.fragile,
+          root.stalls, root.stallVal, st.nodeStalls⟩
         | some p =>
           ⟨if gapOk (rolls p) lb gapTol then "OPTIMAL" else "FEASIBLE", some p, rolls p, st.nodes, conv, lb,
-            false, root.duals, some obj, st.fragile⟩
+            false, root.duals, some obj, st.fragile, root.stalls, root.stallVal, st.nodeStalls⟩
 
 /-- Cutting-stock pricer: `knapsack_pricing`, stop when `value ≤ 1 + eps`. -/
 def csPricer (W : Nat) (sizes : List Nat) (eps : Rat) : Pricer :=
